@@ -294,7 +294,16 @@ impl<'a> World<'a> {
             viols: Vec::new(),
             aborted: None,
             log_mark: disk.log_len(),
-            probes: Probes::default(),
+            probes: {
+                let mut p = Probes::default();
+                if dev.vols.iter().any(|v| v.lba >= 0x8000_0000) {
+                    p.hit("volume_beyond_2_31_blocks");
+                }
+                if dev.vols.iter().any(|v| v.lba as u64 + v.total_blocks() as u64 >= 0xFFFF_F000) {
+                    p.hit("volume_at_the_top_of_the_32_bit_block_range");
+                }
+                p
+            },
             ev_hash: 0xcbf29ce484222325,
             op_idx: 0,
             faulty: false,
